@@ -19,7 +19,7 @@ for name in sorted(os.listdir(SEEDED)):
         subprocess.run(['git', '-C', '/repo', 'apply', os.path.join(d, 'patch.diff')], check=True)
         out[name] = {'property': prop, 'by_check': {}, 'detected': False}
         for chk in checks:
-            p = subprocess.run([os.path.join(HERE, 'check'), chk, '--tier', 'quick'], capture_output=True, text=True, cwd=HERE)
+            p = subprocess.run([os.path.join(HERE, 'check'), chk, '--tier', meta.get('tier', 'quick')], capture_output=True, text=True, cwd=HERE)
             viol = [l for l in p.stdout.splitlines() if l.startswith('VIOLATION')]
             what = [l.strip()[:300] for l in p.stdout.splitlines() if l.startswith('  what:')]
             det = p.returncode == 1 and bool(viol)
